@@ -33,6 +33,9 @@ for s in "$@"; do
     C04c) run C04c C04 ;;
     C05c) run C05c C05 ;;
     C11c) run C11c C11 ;;
+    C10c) run C10c C10 ;;
+    C13c) run C13c C13 ;;
+    C12c) run C12c C12 ;;
   esac
 done
 echo DONE >> /tmp/seed_results.txt
